@@ -19,7 +19,7 @@ def specs():
     S["mult_avx512_72"] = (2, "b_32", lambda o, a, b: (o[0] << 64) + o[1] == a * b and o[0] < (1 << 32))
     S["reduce_avx512_128_64"] = (2, None, lambda o, h, l: o[0] % P == ((h << 64) + l) % P)
     S["reduce_avx512_96_64"] = (2, "a_32", lambda o, h, l: o[0] % P == ((h << 64) + l) % P)
-    S["square_avx512"] = (1, None, lambda o, a: o[0] % P == (a * a) % P and o[1] == a)
+    S["square_avx512"] = (1, None, lambda o, a: o[0] % P == (a * a) % P)
     S["square_avx512_128"] = (1, None, lambda o, a: (o[0] << 64) + o[1] == a * a)
     return S
 
